@@ -36,6 +36,26 @@ use std::borrow::Cow;
 #[derive(Encode, Decode, CborLen, Debug, PartialEq)] #[cbor(transparent)] struct TrT(#[cbor(n(0), tag(1001))] u64);
 #[derive(Encode, Decode, CborLen, Debug, PartialEq)] struct TrOuter { #[n(0)] a: TrT, #[n(1)] b: Option<TrT>, #[n(2)] k: IoT }
 
+/// field names a macro might also use for its own locals (in struct-like variants the generated match arm binds fields by their names)
+#[derive(Encode, Decode, CborLen, Debug, PartialEq)] enum NamesE { #[n(0)] Data { #[n(0)] len: u64, #[n(1)] num: u64, #[n(2)] nil: Option<u64>, #[n(3)] e: u64, #[n(4)] d: u64, #[n(5)] ctx: u64,
+    #[n(6)] n: u64, #[n(7)] i: u64, #[n(8)] pos: u64, #[n(9)] tag: u64, #[n(10)] idx: u64, #[n(11)] val: u64 } }
+#[derive(Encode, Decode, CborLen, Debug, PartialEq)] #[cbor(map)] enum NamesM { #[n(0)] Data { #[n(0)] len: u64, #[n(1)] num: u64, #[n(2)] nil: Option<u64>, #[n(3)] e: u64, #[n(4)] d: u64, #[n(5)] ctx: u64,
+    #[n(6)] n: u64, #[n(7)] i: u64, #[n(8)] pos: u64, #[n(9)] tag: u64, #[n(10)] idx: u64, #[n(11)] val: u64 } }
+#[derive(Encode, Decode, CborLen, Debug, PartialEq)] struct NamesS { #[n(0)] len: u64, #[n(1)] num: u64, #[n(2)] nil: Option<u64>, #[n(3)] e: u64, #[n(4)] d: u64, #[n(5)] ctx: u64,
+    #[n(6)] n: u64, #[n(7)] i: u64, #[n(8)] pos: u64, #[n(9)] tag: u64, #[n(10)] idx: u64, #[n(11)] val: u64 }
+
+/// structs without an encoded field under a struct-level tag; readers without fields of writers with fields
+#[derive(Encode, Decode, CborLen, Debug, PartialEq)] #[cbor(tag(1001))] struct TagUnit;
+#[derive(Encode, Decode, CborLen, Debug, PartialEq)] #[cbor(tag(7), map)] struct TagEmptyM {}
+#[derive(Encode, Decode, CborLen, Debug, PartialEq)] #[cbor(tag(70000))] struct TagSkip { #[cbor(skip)] x: u8 }
+#[derive(Encode, Decode, CborLen, Debug, PartialEq)] struct EmptyA;
+#[derive(Encode, Decode, CborLen, Debug, PartialEq)] #[cbor(map)] struct EmptyM {}
+#[derive(Encode, Decode, CborLen, Debug, PartialEq)] struct EmptyT();
+
+/// `#[b(..)]` and `#[n(..)]` differ in what may be borrowed, never in the bytes
+#[derive(Encode)] struct BSliceB<'a> { #[n(0)] id: u8, #[b(1)] data: &'a [u8], #[b(2)] more: Option<&'a [u8]> }
+#[derive(Encode)] struct BSliceN<'a> { #[n(0)] id: u8, #[n(1)] data: &'a [u8], #[n(2)] more: Option<&'a [u8]> }
+
 /// a three-state user type: `Keep` is its nil value (left out by the derived encoder, filled in by `Decode::nil`), `Clear` is written as
 /// `null` — a present value, which only the type's own decoder can tell from a number
 #[derive(Debug, PartialEq, Clone, Copy)] enum Patch { Keep, Clear, Set(u8) }
@@ -124,6 +144,41 @@ pub fn run(w: &[&str]) -> String {
                 }
                 Err(e) => format!("{} len={} dec=err:{} pos={}", hex(b), n, dclass(&e), d.position())
             }
+        }
+        ("NamesE", a) | ("NamesM", a) | ("NamesS", a) if a.len() == 12 => {
+            let v: Vec<u64> = a.iter().enumerate().map(|(k, x)| if k == 2 && *x == "N" { Some(0) } else { x.parse::<u64>().ok() }).collect::<Option<_>>()?;
+            let nil = if a[2] == "N" { None } else { Some(v[2]) };
+            let sh = |l: &u64, nu: &u64, ni: &Option<u64>, r: [&u64; 9]| format!("{},{},{},{}", l, nu, ni.map(|x| x.to_string()).unwrap_or("N".into()), r.iter().map(|x| x.to_string()).collect::<Vec<_>>().join(","));
+            match w[0] {
+                "NamesE" => rt(&NamesE::Data { len: v[0], num: v[1], nil, e: v[3], d: v[4], ctx: v[5], n: v[6], i: v[7], pos: v[8], tag: v[9], idx: v[10], val: v[11] },
+                    |x| match x { NamesE::Data { len, num, nil, e, d, ctx, n, i, pos, tag, idx, val } => sh(len, num, nil, [e, d, ctx, n, i, pos, tag, idx, val]) }),
+                "NamesM" => rt(&NamesM::Data { len: v[0], num: v[1], nil, e: v[3], d: v[4], ctx: v[5], n: v[6], i: v[7], pos: v[8], tag: v[9], idx: v[10], val: v[11] },
+                    |x| match x { NamesM::Data { len, num, nil, e, d, ctx, n, i, pos, tag, idx, val } => sh(len, num, nil, [e, d, ctx, n, i, pos, tag, idx, val]) }),
+                _ => rt(&NamesS { len: v[0], num: v[1], nil, e: v[3], d: v[4], ctx: v[5], n: v[6], i: v[7], pos: v[8], tag: v[9], idx: v[10], val: v[11] },
+                    |x| sh(&x.len, &x.num, &x.nil, [&x.e, &x.d, &x.ctx, &x.n, &x.i, &x.pos, &x.tag, &x.idx, &x.val])),
+            }
+        }
+        ("TagUnit", []) => rt(&TagUnit, |_| String::new()),
+        ("TagEmptyM", []) => rt(&TagEmptyM {}, |_| String::new()),
+        ("TagSkip", []) => rt(&TagSkip { x: 0 }, |_| String::new()),
+        // a struct-level tag is demanded whether or not the struct has fields: the three tagged field-less types from the given bytes
+        ("TagRead", [h]) => {
+            let b = unhex(h)?;
+            fn r<T>(x: Result<T, minicbor::decode::Error>) -> &'static str { if x.is_ok() { "ok" } else { "err" } }
+            format!("{} len=0 dec={}/{}/{} pos=0", hex(&b), r(minicbor::decode::<TagUnit>(&b)), r(minicbor::decode::<TagEmptyM>(&b)), r(minicbor::decode::<TagSkip>(&b)))
+        }
+        // a reader without fields accepts what a writer with (optional) fields wrote: the items are skipped
+        ("EmptyRead", [h]) => {
+            let b = unhex(h)?;
+            fn r<T>(b: &[u8]) -> String where T: for<'x> Decode<'x, ()> { let mut d = minicbor::Decoder::new(b); match d.decode::<T>() { Ok(_) => format!("ok:{}", d.position()), Err(e) => format!("err:{}", dclass(&e)) } }
+            format!("{} len=0 dec={}/{}/{} pos=0", hex(&b), r::<EmptyA>(&b), r::<EmptyM>(&b), r::<EmptyT>(&b))
+        }
+        ("BSlice", [id, h, m]) => {
+            let (data, more) = (unhex(h)?, if *m == "N" { None } else { Some(unhex(m)?) });
+            let id: u8 = id.parse().ok()?;
+            let b = minicbor::to_vec(&BSliceB { id, data: &data, more: more.as_deref() }).ok()?;
+            let n = minicbor::to_vec(&BSliceN { id, data: &data, more: more.as_deref() }).ok()?;
+            format!("{} len={} dec={} pos={}", hex(&b), b.len(), hex(&n), b.len())
         }
         ("IoT", [k]) => { let v = match *k { "A" => IoT::A, "B" => IoT::B, _ => IoT::C }; rt(&v, |x| format!("{:?}", x)) }
         ("TrT", [n]) => rt(&TrT(n.parse().ok()?), |x| format!("{}", x.0)),
